@@ -198,12 +198,7 @@ func (c02) Generate(idx int, r *core.Rand, tier string) core.Script {
 	s.Content.Candidates = append(s.Content.Candidates, hx(ref.Pad32(k)))
 	if solvedAt < 0 && ref.KeyValid(d) && w.Chance(1, 2) {
 		x1 := ref.MulG(k).X
-		zeros := uint(8 * w.Range(1, 3))
-		small := ref.Int(w.Bytes(32))
-		small.Rsh(small, zeros)
-		if small.Sign() == 0 {
-			small.SetInt64(1)
-		}
+		small := smallValue(w)
 		ev := new(big.Int)
 		if w.Chance(1, 2) { // r := small
 			ev.Sub(small, x1)
